@@ -89,6 +89,39 @@ def globalSections (t : Transfer) (x y : Array Rat) : Option String := do
   let b (x : Bool) := if x then "1" else "0"
   pure s!" LT {lt} GU {gu} GN {gn} FLAGS {b mOne.isChild} {b mOne.isParent} {b mOne.isGhost} GM {gm}"
 
+def showSig (A : FeatModel.LA.Csr Rat) : String :=
+  let g := csrSig A
+  s!"{g.1} {g.2.1} {g.2.2.1} {showRat g.2.2.2}"
+
+/-- `TW` sections of the harness (`transfer_twins_sections`): original, converted (index type: values unchanged) and
+cloned local and global transfer objects -/
+def twinSections (t : Transfer) (x y : Array Rat) : Option String := do
+  let nf := y.size; let nc := x.size
+  let lq (t : Transfer) := do
+    let q ← quad (fun v => t.applyProl (five nf) v) (fun v => t.applyRest v (five nc)) (fun v => t.applyTrunc v (five nc)) x y
+    pure s!"{q} M {showSig t.prol} {showSig t.rest} {showSig t.trunc}"
+  let gq (g : GTransfer) := do
+    let q ← quad (fun v => (g.prol [five nf] [five nc] v).map fun l => l.getD 0 #[])
+      (fun v => g.rest [v] [five nc] (five nc)) (fun v => g.trunc [v] [five nc] (five nc)) x y
+    let l := g.locals.getD 0 default
+    pure s!"{q} M {showSig l.prol} {showSig l.rest} {showSig l.trunc}"
+  let mOne : MuxerM := { commSize := 1, isParent := true, B := nc, pm := [identMir nc], cm := [identMir nc] }
+  let gu : GTransfer := { muxer := none, locals := [t] }
+  let gm : GTransfer := { muxer := some mOne, locals := [t] }
+  let o ← lq t
+  let cv ← lq (t.convert id)
+  let cb ← lq ((t.convert id).convert id)
+  let cs ← lq (t.clone .shallow)
+  let cw ← lq (t.clone .weak)
+  let cd ← lq (t.clone .deep)
+  let cc ← lq (t.clone .weak)
+  let guv ← gq (gu.convert none id)
+  let gmv ← gq (gm.convert (some mOne) id)
+  let guc ← gq (gu.clone .deep)
+  let gmw ← gq (gm.clone .weak)
+  let gmd ← gq (gm.clone .deep)
+  pure s!" OR {o} CV {cv} CB {cb} CS {cs} CW {cw} CD {cd} CC {cc} GUV {guv} GMV {gmv} GUC {guc} GMW {gmw} GMD {gmd}"
+
 def failStr : Fail → String
   | .abort => "ABORT"
   | .exc => "EXC"
@@ -119,6 +152,7 @@ def feCase (d : Dump) (ptr ind : List Nat) (x y : List Rat) : Except Fail String
   -- layout of the truncation matrix = transposed layout of the prolongation (`loc_trunc.transpose(loc_prol)`)
   let tc := csrOfDense d.nc d.nf rc.rowPtr.toList rc.colInd.toList td
   let g ← optAbort (globalSections (Transfer.ofProl pc tc) x.toArray y.toArray)
+  let tw ← optAbort (twinSections (Transfer.ofProl pc tc) x.toArray y.toArray)
   let vf := pvecRaw d locs x
   let vd ← optAbort (scaleVec vf w)
   let xp := matVec d.nf d.nc pd x
@@ -127,7 +161,7 @@ def feCase (d : Dump) (ptr ind : List Nat) (x y : List Rat) : Except Fail String
   pure (s!"W {showVec w} P {showDense d.nf d.nc praw} PD {showDense d.nf d.nc pd} WT {showVec wt} " ++
     s!"T {showDense d.nc d.nf traw} TD {showDense d.nc d.nf td} R {showDense d.nc d.nf r} " ++
     s!"PC {showCsr pc} RC {showCsr rc} " ++
-    s!"VF {showVec vf} VW {showVec w} VD {showVec vd} XP {showVec xp} XR {showVec xr} XT {showVec xt} G{g}")
+    s!"VF {showVec vf} VW {showVec w} VD {showVec vd} XP {showVec xp} XR {showVec xr} XT {showVec xt} G{g} TW{tw}")
 
 def handle : P String := do
   let op ← tok
@@ -155,7 +189,9 @@ def handle : P String := do
     match t.applyProl (five y.length) x.toArray, t.applyRest y.toArray (five x.length),
         t.applyTrunc y.toArray (five x.length) with
     | some xp, some xr, some xt =>
-      pure s!"R {showCsr t.rest} XP {showVec xp.toList} XR {showVec xr.toList} XT {showVec xt.toList}"
+      match twinSections t x.toArray y.toArray with
+      | some tw => pure s!"R {showCsr t.rest} XP {showVec xp.toList} XR {showVec xr.toList} XT {showVec xt.toList} TW{tw}"
+      | none => pure "ABORT"
     | _, _, _ => pure "ABORT"
   | "childmap" =>
     let shape ← tok
@@ -174,9 +210,10 @@ def handle : P String := do
   | "gxfer" =>
     let prol ← csrP; let trunc ← csrP
     let x ← ratList; let y ← ratList
-    match globalSections (Transfer.ofProl prol trunc) x.toArray y.toArray with
-    | some g => pure s!"G{g}"
-    | none => pure "ABORT"
+    match globalSections (Transfer.ofProl prol trunc) x.toArray y.toArray,
+        twinSections (Transfer.ofProl prol trunc) x.toArray y.toArray with
+    | some g, some tw => pure s!"G{g} TW{tw}"
+    | _, _ => pure "ABORT"
   | "gforbid" =>
     let which ← nat
     let prol ← csrP; let trunc ← csrP
